@@ -155,7 +155,7 @@ def _worker(args):
 
 def campaign(pid, kind, seed, n_examples_per_worker, workers=16):
     from vlib import procpool
-    work = os.path.join(bootstrap.VERIF, "work", pid + "_statemachine")
+    work = os.path.join(bootstrap.VERIF, ".work", pid + "_statemachine")
     os.makedirs(work, exist_ok=True)
     cur = [os.path.join(work, "current_%s_%d_%d.json" % (kind, seed, k)) for k in range(workers)]
     for c in cur:
